@@ -459,7 +459,9 @@ def mangle_case(src, seed):
 
 CLOSED_PREFIXES = ["x=1;", "data a; set b; run;", "* comment;", "%let a=1;", ";", "proc print; run;\n", "x='a;';", "/* c */ y;",
                    "%put hello;", "%macro m(a,b=2); %put &a; %mend;", "data a;\ndatalines;\n1 2\n;", "%* macro comment;", "a=\"q\"\"r\";",
-                   "%if 1 %then %do; x; %end;", "é='ü';\n", "﻿x;", "%m(1,2);", "x=%eval(1+2);", "y = 'it''s';\n\n"]
+                   "%if 1 %then %do; x; %end;", "é='ü';\n", "﻿x;", "%m(1,2);", "x=%eval(1+2);", "y = 'it''s';\n\n",
+                   "%macro m;\n  %goto fin;\n  %fin: %mend;\n", "%macro keepvars;\n  id name amount %mend;\n", "%lbl: x=1;", "%macro k(a, b=1) / store; %put &a %mend k;",
+                   "%macro m; %do i=1 %to 2; y &i %end; %mend;", "%if &a %then %fin: ;", "%let p = %verify(123, 1);", "data a; x=\"&v\"; run;\n* note;\n"]
 
 
 class Evaluator:
@@ -593,7 +595,10 @@ class Evaluator:
             dA = impl_dump(vt[0], A)
             dB = impl_dump(vt[0], hexes)
             dAB = impl_dump(vt[0], [x + y for x, y in zip(A, hexes)])
-            verd = lean_check([f"{pid}\t{a}\t{b}\t{x}\t{y}\t{z}" for a, b, x, y, z in zip(A, hexes, dA, dB, dAB)])
+            # closedness of A is judged by the reference model's run on A
+            uniqA = list(dict.fromkeys(A))
+            mA = dict(zip(uniqA, model_dump(vt[0], uniqA)))
+            verd = lean_check([f"C15m\t{a}\t{b}\t{x}\t{y}\t{z}\t{mA[a]}" for a, b, x, y, z in zip(A, hexes, dA, dB, dAB)])
             for i, vd in enumerate(verd):
                 if vd == "n/a":
                     self.stats["compose_not_applicable"] += 1
@@ -696,9 +701,14 @@ def check_property(pid, tier, seed):
     ok, msg = regen_tables()
     if not ok:
         broken.append(("translator", msg))
-    lean_ok, lean_log = lake_build(cfg["modules"] + ["sasmodel"])
+    # the executable model / checkers first and on their own: they must be rebuilt against the regenerated tables
+    # even when a theorem about those tables no longer checks (the search for a failing input needs them)
+    exe_ok, exe_log = lake_build(["sasmodel"])
+    lean_ok, lean_log = lake_build(cfg["modules"])
     if not lean_ok:
         broken.append(("lake build " + " ".join(cfg["modules"]), lean_log[-4000:]))
+    if not exe_ok:
+        broken.append(("lake build sasmodel", exe_log[-4000:]))
     bad = source_audit()
     if bad:
         broken.append(("source audit (sorry/axiom/native_decide...)", "\n".join(bad)))
@@ -745,9 +755,37 @@ def check_property(pid, tier, seed):
             broken.append(("build of the Python extension from /repo", (out + err).decode(errors="replace")[-3000:]))
         else:
             discharged += 1
+    if cfg["kind"] == "pyext" and rc == 0:
+        # sources only Python can express: strs with lone surrogates (text read with errors="surrogateescape").
+        # Lean's `Char` cannot hold them, so this one clause (tiling of the Python string whenever a result is
+        # returned) is evaluated in Python: exploration, labelled as such in DESIGN.md.
+        rng = random.Random(seed)
+        base = ["x = 1;", "data a; set b; run;", "%let a = 'b';", "/* c */ y = \"q\";", "é='ü';\n", "\ufeffx;", "%put &a;"]
+        sur = []
+        for _ in range(60):
+            t = rng.choice(base)
+            k = rng.randrange(len(t) + 1)
+            sur.append(t[:k] + chr(rng.choice([0xD800, 0xDC80, 0xDFFF, 0xDCE9])) + t[k:])
+        sh = [x.encode("utf-8", "surrogatepass").hex() for x in sur]
+        rc2, out2, err2 = run(["python3", os.path.join(ROOT, "tools/py_ext.py"), "surrogates"], inp=("\n".join(sh) + "\n").encode())
+        verd = out2.decode().split("\n")[:-1]
+        obligations += 1
+        R.cov["surrogate_inputs"] = dict(collections.Counter(v.split(" ")[0] for v in verd))
+        if rc2 != 0 or len(verd) != len(sh):
+            broken.append(("py_ext surrogates", err2.decode(errors="replace")[-800:]))
+        else:
+            discharged += 1
+            for x, h, v in zip(sur, sh, verd):
+                if v.startswith("fail"):
+                    p = write_replay(pid, "input", {"property": pid, "source": x.encode("utf-8", "surrogatepass").decode("utf-8", "backslashreplace"),
+                                                    "source_hex_surrogatepass": h, "failed_clauses": ["python-str-" + v[5:]],
+                                                    "note": "the source is a Python str with a lone surrogate (hex = UTF-8 with surrogatepass); "
+                                                            "replay: echo <hex> | python3 tools/py_ext.py surrogates"})
+                    R.violations.append((p, False))
+                    break
     if cfg["kind"] == "profile":
         # (c),(d): concurrent and repeated runs must reproduce the sequential dumps
-        tin = corpus_inputs() + gen_stream("soup", seed, 3000) + gen_stream("trunc", seed, 1500)
+        tin = corpus_inputs() + gen_stream("soup", seed, 3000) + gen_stream("trunc", seed, 1500) + gen_stream("hexstr", seed, 600) + gen_stream("strings", seed, 800)
         for v in ("rel", "dev"):
             rc, out, err = run([harness_bin(v), "threads", "16", "--rounds", "2" if tier == "quick" else "6"],
                                inp=("\n".join(tin) + "\n").encode())
@@ -758,10 +796,13 @@ def check_property(pid, tier, seed):
                 discharged += 1
                 R.cov[f"threads_{v}"] = {"inputs": int(m.group(1)), "comparisons": int(m.group(2)), "threads": 16}
             else:
-                bad = re.findall(r"threads mismatch (\S+)", txt)
-                for h in bad[:3]:
+                bad = re.findall(r"threads mismatch (\S+)(?: after (\S+))?", txt)
+                for h, prev in bad[:3]:
+                    hist = [unhex(prev)] if prev and prev != "-" else []
                     p = write_replay(pid, "input", {"property": pid, "variants": [v], "source": unhex(h), "source_hex": h,
-                                                    "failed_clauses": ["thread-or-history-dependence"], "harness": "threads 16"})
+                                                    "history": hist, "history_hex": [prev] if hist else [],
+                                                    "failed_clauses": ["thread-or-history-dependence"],
+                                                    "harness": "threads 16: the dump of `source` lexed right after `history` on the same thread differs from its dump on a fresh thread"})
                     R.violations.append((p, False))
                 if not bad:
                     broken.append((f"harness threads ({v})", txt[-1500:] + err.decode(errors="replace")[-500:]))
